@@ -26,8 +26,10 @@ kinds
     @module                                             ghost items appended to the module
     @uses                                               `use` lines put at the top of the module
     @fields <Struct>                                    body = the struct's field names; any difference => contract-stale (exit 2)
-    @println <fn-path>                                  N6: println! statements of that fn become ghost records in `out__log`;
-                                                        body = ghost text placed where the fn is left (end of body, every `return`)
+    @println <fn-path>                                  (superseded by @stdout; still accepted) N6 with a local ghost log
+    @atexit <fn-path>                                   body = ghost text placed where the fn is left (end of body and every `return`)
+    @stdout <Type>                                      N6/N8: stdout and stdin as linear ghost resources threaded through the methods of
+                                                        <Type> that print or read (computed from the call graph on every run)
 fn-path:  name | Type::name | Trait::name  with optional impl="<substring of impl header>" to disambiguate.
 """
 import hashlib
@@ -555,7 +557,7 @@ def splice_module(mod: str, src: str, recs, report, havoc=(), variant="main"):
     for rec in recs:
         k = rec.kind
         body = "\n".join(rec.body)
-        if variant == "main" and k in ("loop", "before", "after", "closure") and id(fn_of(rec)) in iso_fns:
+        if variant == "main" and k in ("loop", "before", "after", "closure", "atexit") and id(fn_of(rec)) in iso_fns:
             continue    # body hidden in this invocation: only the contract is spliced
         if k in ("fn", "assumed"):
             f = fn_of(rec)
@@ -671,6 +673,103 @@ def splice_module(mod: str, src: str, recs, report, havoc=(), variant="main"):
                     rs, _re = statement_bounds(masked, f, f.sig_end + rm.start())
                     edits.append((rs, rs, "\n" + body + "\n"))
             anchors.append({"kind": k, "anchor": "%s::%s#println(%d)" % (mod, rec.args[0], n_pr), "origin": rec.origin})
+        elif k == "atexit":
+            # ghost text placed where the function is left: in front of the closing brace of the body and of every `return`
+            # (proof hints that do not depend on the shape of the body)
+            f = fn_of(rec)
+            edits.append((f.body_end, f.body_end, "\n" + body + "\n"))
+            for rm in re.finditer(r"\breturn\b", masked[f.sig_end:f.body_end]):
+                rs, _re = statement_bounds(masked, f, f.sig_end + rm.start())
+                edits.append((rs, rs, "\n" + body + "\n"))
+            anchors.append({"kind": k, "anchor": "%s::%s#exit" % (mod, rec.args[0]), "origin": rec.origin})
+        elif k == "stdout":
+            # N6 (output) / N8 (input): the process's stdout and stdin as LINEAR GHOST RESOURCES.
+            # Every method of the named type that contains a `println!`/`print!` statement, or calls (as `self.NAME(..)`) a method
+            # that does, receives one extra ghost parameter `Tracked(out__): Tracked<&mut OutLog>` (erased at compile time), every
+            # such call passes it on, and every `println!(LITERAL, args..);` statement becomes `proof { out__.put(LITERAL@); }` -
+            # the arguments are not evaluated in the verified text; what must hold of them is asserted by @before records anchored
+            # on the statement's own text.  The set of printing methods is recomputed from the source on every run, so a method that
+            # starts to print joins it (and then has to say so in its contract, or its callers' contracts fail).
+            # `std::io::stdin().read_line(&mut X)` becomes `crate::stdspec::stdin_read_line(&mut X, Tracked(in__))` (an
+            # external_body function whose body is that very expression) and the enclosing method, and its callers inside the
+            # type, receive `Tracked(in__): Tracked<&mut InStream>` the same way.
+            tname = rec.args[0]
+            meths = [f for f in fns if f.has_body and f.container is not None and f.container_kind == "impl" and impl_type_name(f.container) == tname]
+            def fixpoint(seed_pat):
+                P = {f.name for f in meths if re.search(seed_pat, masked[f.sig_end:f.body_end])}
+                changed = True
+                while changed:
+                    changed = False
+                    for f in meths:
+                        if f.name in P:
+                            continue
+                        if any(re.search(r"\bself\s*\.\s*%s\s*\(" % re.escape(n), masked[f.sig_end:f.body_end]) for n in P):
+                            P.add(f.name)
+                            changed = True
+                return P
+            P_out = fixpoint(r"\b(?:println|print|eprintln|eprint)!\s*\(")
+            P_in = fixpoint(r"\bstdin\s*\(\s*\)\s*\.\s*read_line\s*\(")
+            for f in meths:
+                extra = []
+                if f.name in P_out:
+                    extra.append("Tracked(out__): Tracked<&mut crate::stdspec::OutLog>")
+                if f.name in P_in:
+                    extra.append("Tracked(in__): Tracked<&mut crate::stdspec::InStream>")
+                if not extra:
+                    continue
+                po = masked.find("(", f.fn_kw)
+                pc = match_close(masked, po)
+                inner = masked[po + 1:pc].strip()
+                edits.append((pc, pc, (", " if inner and not inner.endswith(",") else "") + ", ".join(extra)))
+                report["normalisations"].append({"rule": "N6", "file": "src/%s.rs" % mod, "line": src.count("\n", 0, f.fn_kw) + 1,
+                                                 "what": "method %s::%s receives ghost parameter(s) %s (erased at compile time)" % (tname, f.name, "; ".join(extra))})
+                # calls to threaded methods
+                for cm in re.finditer(r"\bself\s*\.\s*([a-z_][a-z0-9_]*)\s*\(", masked[f.sig_end:f.body_end]):
+                    callee = cm.group(1)
+                    pass_on = []
+                    if callee in P_out:
+                        pass_on.append("Tracked(out__)")
+                    if callee in P_in:
+                        pass_on.append("Tracked(in__)")
+                    if not pass_on:
+                        continue
+                    co = f.sig_end + cm.end() - 1
+                    cc = match_close(masked, co)
+                    cin = masked[co + 1:cc].strip()
+                    edits.append((cc, cc, (", " if cin else "") + ", ".join(pass_on)))
+                # output statements
+                for pm in re.finditer(r"\b(println|print|eprintln|eprint)!\s*\(", masked[f.sig_end:f.body_end]):
+                    st = f.sig_end + pm.start()
+                    op = f.sig_end + pm.end() - 1
+                    cl = match_close(masked, op)
+                    lm = re.match(r'\s*("(?:[^"\\]|\\.)*")', src[op + 1:cl])
+                    if lm is None:
+                        if pm.group(1) == "println" and src[op + 1:cl].strip() == "":
+                            lit = '""'
+                        else:
+                            raise ExtractError("anchor-lost %s! without a format literal in %s::%s" % (pm.group(1), tname, f.name))
+                    else:
+                        lit = lm.group(1)
+                    en = cl + 1
+                    while masked[en].isspace():
+                        en += 1
+                    if masked[en] != ";":
+                        raise ExtractError("anchor-lost %s! in expression position in %s::%s" % (pm.group(1), tname, f.name))
+                    tag = "" if pm.group(1) == "println" else ("[%s]" % pm.group(1))
+                    lit_t = lit if not tag else '"%s%s' % (tag, lit[1:])
+                    # (reveal_strlit: the characters of the literal are made known to the solver here, so that no contract or
+                    #  proof hint has to name the engine's texts)
+                    edits.append((st, en + 1, "proof { reveal_strlit(%s); out__.put(%s@); }" % (lit_t, lit_t)))
+                    report["normalisations"].append({"rule": "N6", "file": "src/%s.rs" % mod, "line": src.count("\n", 0, st) + 1,
+                                                     "what": "`%s!(%s, ..);` -> ghost record of the format literal on the stdout resource (arguments not evaluated)" % (pm.group(1), lit)})
+                for rm in re.finditer(r"\bstd::io::stdin\s*\(\s*\)\s*\.\s*read_line\s*\(\s*&mut\s+([a-z_][a-z0-9_]*)\s*\)", masked[f.sig_end:f.body_end]):
+                    st = f.sig_end + rm.start()
+                    en = f.sig_end + rm.end()
+                    edits.append((st, en, "crate::stdspec::stdin_read_line(&mut %s, Tracked(in__))" % rm.group(1)))
+                    report["normalisations"].append({"rule": "N8", "file": "src/%s.rs" % mod, "line": src.count("\n", 0, st) + 1,
+                                                     "what": "`std::io::stdin().read_line(&mut %s)` -> `crate::stdspec::stdin_read_line(&mut %s, Tracked(in__))` (external_body, body = that expression; the input stream is a ghost resource)" % (rm.group(1), rm.group(1))})
+            report.setdefault("stdout_threaded", {})["%s::%s" % (mod, tname)] = {"printing": sorted(P_out), "reading": sorted(P_in)}
+            anchors.append({"kind": k, "anchor": "%s::impl %s#stdout(%d printing, %d reading)" % (mod, tname, len(P_out), len(P_in)), "origin": rec.origin})
         elif k == "closure":
             f = fn_of(rec)
             cs = closures_in(masked, f)
